@@ -119,7 +119,3 @@ func filterModel(model string, vars []string) string {
 	return strings.Join(out, "\n")
 }
 
-func cmdCheck(args []string) {
-	fmt.Fprintln(os.Stderr, "check: not implemented yet")
-	os.Exit(2)
-}
